@@ -61,3 +61,10 @@ package directive
 //@   requires d.keywordCoords.file != nil && d.keywordCoords.begin <= len(d.keywordCoords.file.content) && !isnil(d.includeTracer)
 //@   modifies nothing
 //@   ensures ret != nil && ret.file == d.keywordCoords.file && ret.index == d.keywordCoords.begin
+
+// AppendParameter only touches the parameter containers of its receiver
+//@ func (*Directive).AppendParameter
+//@   tag C01
+//@   trusted
+//@   requires d != nil
+//@   modifies d.unnamedParameters, mapof(d.namedParameters)
